@@ -33,7 +33,7 @@ func shimListing(r *ev.Run) {
 				if c == nil {
 					continue
 				}
-				r.Guard(c, "shim listing", a, func() {
+				if _, hung := r.GuardWithin(c, "shim listing", a, ev.CaseBudget(), func() {
 					ag := wire.New()
 					defer ag.Close()
 					sock, _ := ag.Listen()
@@ -96,7 +96,10 @@ func shimListing(r *ev.Run) {
 						r.Count("shim listing comments checked", 1)
 					}
 					r.Nontrivial(fmt.Sprintf("shimlist:%+v", a))
-				})
+				}); hung {
+					r.Unfinished("shim listing")
+					return
+				}
 			}
 		}
 	}
